@@ -109,6 +109,7 @@ pub fn run(out: &Path, seed: u64, thorough: bool, prop: &str) -> Result<(), Box<
     }
     let (search_fails, search_dist) = search(out, prop, seed, thorough);
     failures.extend(search_fails);
+    if prop == "c10" { failures.extend(crate::c11::c10_btc_override_scenario()); }
     let imports = "From Brc.Model Require Import Base History Table BlockTable Store Tie01.\nFrom BrcGen Require Import Consts.";
     let files = cf::write_shards(out, &format!("{}_s", prop), imports, "scase", "bad_scases W", &terms, 16)?;
     std::fs::write(out.join(format!("{}_cases.jsonl", prop)), jsonl)?;
